@@ -203,17 +203,34 @@ class StmtMixin:
     def _merged_if(self, s, c):
         """execute both branches and merge the states; returns False if merging is not possible
         (the caller then forks).  Decisions taken inside the branches are recorded normally."""
-        ft = self.feasible(c)
-        ff = self.feasible(z3.Not(c))
+        ft = self.oracle(lambda: self.feasible(c))
+        ff = self.oracle(lambda: self.feasible(z3.Not(c)))
         if not (ft and ff):
             self.st.pc.append(c if ft else z3.Not(c))
             if not ft and not ff:
                 raise PathEnd()
             self.exec_block(s.body if ft else s.orelse)
             return True
+        # whether the merge succeeded is part of the path's identity: it is recorded at a reserved trail position BEFORE the
+        # decisions taken inside the attempt, so that a replay neither re-attempts a merge that failed (its inner decisions would
+        # consume trail entries that belong to later decision points) nor forks where the recorded path merged
+        P = self.pos
+        replaying = P < len(self.trail)
+        if replaying:
+            e = self.trail[P]
+            if not (isinstance(e, tuple) and e[0] == "o" and e[1] in ("merged", "fork")):
+                raise Unsupported("path replay diverged (merge outcome expected)")
+            self.pos += 1
+            if e[1] == "fork":
+                return False
+        else:
+            self.trail = self.trail[:P] + [("o", None)]
+            self.pos = P + 1
         snap = self.snapshot()
         trail_save, pos_save, pend_save = list(self.trail), self.pos, list(self.pending)
+        n_pend = len(self.pending)
         base_len = len(self.st.pc)
+        self.merge_depth = getattr(self, "merge_depth", 0) + 1
         try:
             self.st.pc.append(c)
             self.exec_block(s.body)
@@ -227,9 +244,18 @@ class StmtMixin:
             merged = self._merge_states(c, snap, then_state, else_state)
         except (MergeFail, PathEnd, RaiseEx, ReturnEx, BreakEx, ContinueEx) as ex:
             # fall back to forking: rewind everything, including decisions taken inside
+            self.merge_depth -= 1
             self.restore(snap)
-            self.trail, self.pos, self.pending = trail_save, pos_save, pend_save
+            if replaying:
+                raise Unsupported("path replay diverged (a merge that succeeded on the recorded path fails on replay)")
+            self.trail, self.pos, self.pending = trail_save[:P] + [("o", "fork")], P + 1, pend_save
             return False
+        self.merge_depth -= 1
+        if not replaying:
+            self.trail[P] = ("o", "merged")
+            for q in self.pending[n_pend:]:
+                if len(q) > P and q[P] == ("o", None):
+                    q[P] = ("o", "merged")
         self.restore(merged)
         self.st.pc = self.st.pc[:base_len]
         for e in then_extra:
